@@ -76,13 +76,18 @@ def systematic():
         else:
             # a type may not contain itself by value: reference a second alias instead
             out.append(("a.b", "", [("T", "T", "", ("S", [("k", ("i",))])), ("T", "U", "", t), ("M", "M", "", e, e)]))
-        out.append(("a.b", "", [("M", "M", "", ("S", [("x", t)]), ("S", [("y", t)]))]))
-        out.append(("a.b", "", [("M", "M", "", e, e), ("X", "E", "", ("S", [("z", t)]))]))
-        out.append(("a.b", "", [("T", "T", "", ("S", [("n", ("A", ("S", [("w", t)])))])), ("M", "M", "", ("S", [("p", ("N", "T"))]), ("S", [("q", ("Q", ("N", "T")))]))]))
+        defs = [("T", "T", "", ("S", [("k", ("i",))]))] if mentions(t, "T") else []      # references must be resolvable
+        out.append(("a.b", "", defs + [("M", "M", "", ("S", [("x", t)]), ("S", [("y", t)]))]))
+        out.append(("a.b", "", defs + [("M", "M", "", e, e), ("X", "E", "", ("S", [("z", t)]))]))
+        if not mentions(t, "T"):
+            out.append(("a.b", "", [("T", "T", "", ("S", [("n", ("A", ("S", [("w", t)])))])), ("M", "M", "", ("S", [("p", ("N", "T"))]), ("S", [("q", ("Q", ("N", "T")))]))]))
     out.append(("a.b", "", [("M", "M", "", e, e), ("X", "E", "", None)]))
     out.append(("a.b", "", [("M", "M", "", e, e), ("X", "E", "", None), ("X", "F", "", ("S", []))]))
     for nm in IFACES:
         out.append((nm, "", [("M", "M", "", ("S", [("a", ("i",))]), e)]))
     for kw in GO_KEYWORDS + LOCALS:
-        out.append(("a.b", "", [("M", "M", "", ("S", [(kw, ("s",))]), ("S", [(kw, ("i",))])), ("X", "E", "", ("S", [(kw, ("b",))]))]))
+        # an error parameter called "error" would become a field Error beside the generated method Error():
+        # that is a member "named like one of the generator's own fixed identifiers" and outside the domain
+        ef = kw if kw != "error" else "errors"
+        out.append(("a.b", "", [("M", "M", "", ("S", [(kw, ("s",))]), ("S", [(kw, ("i",))])), ("X", "E", "", ("S", [(ef, ("b",))]))]))
     return out
